@@ -200,7 +200,7 @@ func runC20(c *Ctx) {
 	})
 	// secondary's selects
 	type selInfo struct {
-		sel   *ssa.Select
+		sel   ssa.Instruction // the select, or the call of a NEW wait helper that is nothing but one select over its parameters
 		cases []selCase
 	}
 	var secSels []selInfo
@@ -209,6 +209,11 @@ func runC20(c *Ctx) {
 			cs, _, ok := decodeSelect(sel)
 			if ok {
 				secSels = append(secSels, selInfo{sel, cs})
+			}
+		}
+		if cl, ok := in.(*ssa.Call); ok {
+			if cs, ok := waitHelperCases(cl); ok {
+				secSels = append(secSels, selInfo{cl, cs})
 			}
 		}
 	})
@@ -332,7 +337,7 @@ func runC20(c *Ctx) {
 				continue
 			}
 			id := chanID(cs.State.Chan)
-			known := id == doneCh
+			known := id == doneCh || isNilConst(cs.State.Chan) // a nil channel is never ready
 			if id == doneCh && cs.Body != nil {
 				if _, reaches := reachFromBlock(cs.Body, func(x ssa.Instruction) bool { return x == ssa.Instruction(secExec) }, nil); !reaches {
 					hasDoneReturn = true
@@ -426,7 +431,7 @@ func runC20(c *Ctx) {
 			hasFailed, hasTimer, hasDone := false, false, false
 			for _, cs := range hold.cases {
 				id := chanID(cs.State.Chan)
-				known := false
+				known := isNilConst(cs.State.Chan) // a nil channel is never ready
 				if id == doneCh {
 					hasDone, known = true, true
 				}
@@ -758,7 +763,7 @@ func runC20(c *Ctx) {
 		viaGo := func(vs []ssa.Value) []ssa.Value {
 			var out []ssa.Value
 			for _, v := range vs {
-				if prm, isP := v.(*ssa.Parameter); isP && prm.Parent() == w && w.Parent() != df {
+				if prm, isP := v.(*ssa.Parameter); isP && prm.Parent() == w {
 					if a := uniqueGoArg(prm); a != nil {
 						out = append(out, tr.origins(a)...)
 						continue
@@ -1122,4 +1127,74 @@ func constIntOrChanCap(v ssa.Value) (int64, bool) {
 		}
 	}
 	return size, size >= 0
+}
+
+// waitHelperCases: cl calls a NEW helper of the module whose body is one blocking select over channels that are its own
+// parameters, and that does nothing else (no call, send, store, go, defer). The select is presented as if it stood at the
+// call: each case's channel is the actual argument; a case's body is the caller's branch taken for the constant the
+// helper returns on that case (when the helper returns a bool that the caller branches on directly), else nil.
+func waitHelperCases(cl *ssa.Call) ([]selCase, bool) {
+	h := staticCallee(cl)
+	if h == nil || !isNewHelper(h) || len(h.Blocks) == 0 {
+		return nil, false
+	}
+	var sel *ssa.Select
+	pure := true
+	eachInstr(h, func(in ssa.Instruction) {
+		switch x := in.(type) {
+		case *ssa.Select:
+			if sel != nil || !x.Blocking {
+				pure = false
+			}
+			sel = x
+		case *ssa.Call, *ssa.Send, *ssa.Store, *ssa.Go, *ssa.Defer, *ssa.MapUpdate:
+			pure = false
+		case *ssa.Panic:
+			if !isSelectPanic(in) {
+				pure = false
+			}
+		}
+	})
+	if sel == nil || !pure {
+		return nil, false
+	}
+	inner, _, ok := decodeSelect(sel)
+	if !ok {
+		return nil, false
+	}
+	// the caller's branch on the helper's result
+	var iff *ssa.If
+	if h.Signature.Results().Len() == 1 {
+		for _, r := range referrers(cl) {
+			if x, ok := r.(*ssa.If); ok && x.Cond == ssa.Value(cl) {
+				iff = x
+			}
+		}
+	}
+	var out []selCase
+	for _, cs := range inner {
+		idx := -1
+		for i, prm := range h.Params {
+			if stripChanConv(cs.State.Chan) == ssa.Value(prm) {
+				idx = i
+			}
+		}
+		if idx < 0 || idx >= len(cl.Call.Args) {
+			return nil, false
+		}
+		st := *cs.State
+		st.Chan = stripChanConv(cl.Call.Args[idx])
+		nc := selCase{Idx: cs.Idx, State: &st}
+		if iff != nil && cs.Body != nil {
+			if ret, found := reachFromBlock(cs.Body, isReturn, nil); found {
+				if rv := returnedValues(ret.(*ssa.Return)); len(rv) == 1 {
+					if b, isB := constBool(rv[0]); isB {
+						nc.Body = succOnTruth(iff, b)
+					}
+				}
+			}
+		}
+		out = append(out, nc)
+	}
+	return out, len(out) > 0
 }
